@@ -1,26 +1,24 @@
 ---- MODULE MC_SockStream ----
 EXTENDS SockStream
-(* program generators: every segmentation of at most maxb bytes into calls of at most maxe iovec elements *)
-RECURSIVE SeqsUpTo(_, _)
-SeqsUpTo(n, vals) == IF n = 0 THEN {<<>>} ELSE LET sm == SeqsUpTo(n - 1, vals) IN sm \cup {Append(q, v) : q \in {x \in sm : Len(x) = n - 1}, v \in vals}
-Iovs(maxb, maxe) == {q \in SeqsUpTo(maxe, 0..maxb) : Len(q) >= 1 /\ SumSeq(q) <= maxb}
+(* program generators: every segmentation of at most maxb bytes into at most maxcalls calls of at most maxe iovec elements *)
+(* (elements may be empty; a call is a loop operation read/write[v] or a single-shot recv/send, buffer or vector form)      *)
+RECURSIVE IovsB(_, _)          \* all element-length sequences of length <= maxe with sum <= b
+IovsB(b, maxe) == IF maxe = 0 THEN {<<>>}
+                  ELSE {<<>>} \cup UNION {{<<x>> \o q : q \in IovsB(b - x, maxe - 1)} : x \in 0..b}
 Calls(maxb, maxe, minb) ==
-    {[loop |-> lp, vec |-> 1, iov |-> q] : lp \in {0, 1}, q \in {x \in Iovs(maxb, maxe) : SumSeq(x) >= minb}}
+    {[loop |-> lp, vec |-> 1, iov |-> q] : lp \in {0, 1}, q \in {x \in IovsB(maxb, maxe) : Len(x) >= 1 /\ SumSeq(x) >= minb}}
     \cup {[loop |-> lp, vec |-> 0, iov |-> <<n>>] : lp \in {0, 1}, n \in minb..maxb}
-RECURSIVE Total(_)
-Total(pr) == IF pr = <<>> THEN 0 ELSE SumSeq(pr[1].iov) + Total(Tail(pr))
-Progs(maxb, maxe, maxcalls, minb) ==
-    LET C == Calls(maxb, maxe, minb) IN {pr \in SeqsUpTo(maxcalls, C) : Len(pr) >= 1 /\ Total(pr) <= maxb}
+RECURSIVE ProgsB(_, _, _, _)
+ProgsB(b, maxe, maxcalls, minb) ==
+    IF maxcalls = 0 THEN {<<>>}
+    ELSE {<<>>} \cup UNION {{<<c>> \o p : p \in ProgsB(b - SumSeq(c.iov), maxe, maxcalls - 1, minb)} : c \in Calls(b, maxe, minb)}
+Progs(maxb, maxe, maxcalls, minb) == ProgsB(maxb, maxe, maxcalls, minb) \ {<<>>}
 NoProg == {<<>>}
-W32 == Progs(3, 3, 2, 0)   R32 == Progs(3, 3, 2, 1)
-W21 == Progs(2, 2, 1, 0)   R21 == Progs(2, 2, 1, 1)
-W31 == Progs(3, 2, 1, 0)   R31 == Progs(3, 2, 1, 1)
-W52 == Progs(5, 3, 2, 0)   R52 == Progs(5, 3, 2, 1)
-W42 == Progs(4, 3, 2, 0)   R42 == Progs(4, 3, 2, 1)
-W22 == Progs(2, 3, 2, 0)   R22 == Progs(2, 3, 2, 1)
+(* quick: one call of <= 3 bytes in <= 3 elements, or two calls of <= 2 bytes in <= 2 elements *)
 WQ == Progs(3, 3, 1, 0) \cup Progs(2, 2, 2, 0)   RQ == Progs(3, 3, 1, 1) \cup Progs(2, 2, 2, 1)
-WT == Progs(5, 3, 1, 0) \cup Progs(3, 3, 2, 0)   RT == Progs(5, 3, 1, 1) \cup Progs(3, 3, 2, 1)
 W11 == Progs(2, 2, 1, 0)   R11 == Progs(2, 2, 1, 1)
+W21 == Progs(3, 2, 1, 0)   R21 == Progs(3, 2, 1, 1)
+W22 == Progs(2, 3, 2, 0)   R22 == Progs(2, 3, 2, 1)
 TI == {Inf}
 T1 == {Inf, 1}
 T012 == {Inf, 0, 1, 2}
